@@ -226,6 +226,7 @@ pub struct PrfStats {
     pub distinct_pairs: u64,
     pub agree_bits: u64,
     pub total_bits: u64,
+    pub stream_reuse_tests: u64,
 }
 
 /// Runs a history; returns the first violation (class, detail).
@@ -238,10 +239,12 @@ pub fn run_history(h: &PrfHistory, st: &mut PrfStats) -> Option<(String, String)
     let mut restarted = vec![false; h.instances];
     // model: memo table
     let mut memo: BTreeMap<usize, (Value, usize)> = BTreeMap::new();
+    let mut last_noise: BTreeMap<usize, Vec<u8>> = BTreeMap::new();
     let key_vals: Vec<Value> = h.keys.iter().map(|k| Value::from_bytes(k.clone())).collect();
     for (oi, op) in h.ops.iter().enumerate() {
         match op {
             POp::Restart { inst } => {
+                last_noise.remove(inst);
                 evals[*inst] = SimpleEvaluator::new(Some(seed_from_u64(h.inst_seeds[*inst] ^ (oi as u64 + 1)))).unwrap();
                 restarted[*inst] = true;
                 st.restarts += 1;
@@ -256,6 +259,25 @@ pub fn run_history(h: &PrfHistory, st: &mut PrfStats) -> Option<(String, String)
                     Ok(Ok(v)) => {
                         if let Err(e) = valid_encoding(&w.types[*ty], &v) {
                             return Some(("invalid-encoding".into(), format!("op {} Random({}): {}", oi, crate::dsl::type_str(&w.types[*ty]), e)));
+                        }
+                        // successive draws of one generator are unrelated: never equal, never a shifted copy of the
+                        // previous draw or of themselves (a generator that forgets to advance its state)
+                        let t = &w.types[*ty];
+                        if crate::vals::all_bytes_full(t) && ciphercore_base::data_types::get_size_in_bits(t.clone()).unwrap_or(0) >= 128 {
+                            let cur = crate::vals::flat_bytes(&v);
+                            st.stream_reuse_tests += 1;
+                            if let Some((d, m, k)) = crate::vals::shifted_copy(&cur, &cur, true) {
+                                return Some(("stream-reused".into(), format!("op {} Random({}): the value repeats itself at shift {} ({} of {} bytes)", oi, crate::dsl::type_str(t), d, k, m)));
+                            }
+                            if let Some(prev) = last_noise.get(inst) {
+                                if let Some((d, m, k)) = crate::vals::shifted_copy(prev, &cur, false) {
+                                    return Some((
+                                        "stream-reused".into(),
+                                        format!("op {} Random({}): agrees with the previous draw of the same generator in {} of {} bytes at shift {}", oi, crate::dsl::type_str(t), k, m, d),
+                                    ));
+                                }
+                            }
+                            last_noise.insert(*inst, cur);
                         }
                     }
                 }
@@ -273,6 +295,15 @@ pub fn run_history(h: &PrfHistory, st: &mut PrfStats) -> Option<(String, String)
                 };
                 match t.ty {
                     Some(ti) => {
+                        if crate::vals::all_bytes_full(&w.types[ti]) {
+                            let cur = crate::vals::flat_bytes(&v);
+                            if cur.len() >= 32 {
+                                st.stream_reuse_tests += 1;
+                                if let Some((d, m, k)) = crate::vals::shifted_copy(&cur, &cur, true) {
+                                    return Some(("stream-reused".into(), format!("op {} PRF({}, {}): the value repeats itself at shift {} ({} of {} bytes)", oi, t.iv, crate::dsl::type_str(&w.types[ti]), d, k, m)));
+                                }
+                            }
+                        }
                         if let Err(e) = valid_encoding(&w.types[ti], &v) {
                             return Some(("invalid-encoding".into(), format!("op {} PRF({}, {}): {}", oi, t.iv, crate::dsl::type_str(&w.types[ti]), e)));
                         }
@@ -341,6 +372,13 @@ pub fn run_history(h: &PrfHistory, st: &mut PrfStats) -> Option<(String, String)
                     return Some(("prf-collision".into(), format!("different (key, counter) give the same {}-bit value", bits)));
                 }
                 // bitwise agreement over the meaningful bits only (padding bits of packed bit arrays are always zero)
+                if crate::vals::all_bytes_full(t) {
+                    st.stream_reuse_tests += 1;
+                    let (x, y) = (crate::vals::flat_bytes(&items[i].1 .0), crate::vals::flat_bytes(&items[j].1 .0));
+                    if let Some((d, m, k)) = crate::vals::shifted_copy(&x, &y, false) {
+                        return Some(("prf-collision".into(), format!("different (key, counter) give {} values that agree in {} of {} bytes at shift {}", crate::dsl::type_str(t), k, m, d)));
+                    }
+                }
                 let (agree, n) = agreement(t, &items[i].1 .0, &items[j].1 .0, 512);
                 st.distinct_pairs += 1;
                 st.agree_bits += agree;
@@ -722,6 +760,7 @@ pub fn run_c15(args: &Args) -> i32 {
         tot.noise += r.stats.noise;
         tot.after_restart_repeats += r.stats.after_restart_repeats;
         tot.distinct_pairs += r.stats.distinct_pairs;
+        tot.stream_reuse_tests += r.stats.stream_reuse_tests;
         tot.agree_bits += r.stats.agree_bits;
         tot.total_bits += r.stats.total_bits;
         if r.nontrivial {
@@ -803,6 +842,7 @@ pub fn run_c15(args: &Args) -> i32 {
             "of_which_after_a_restart": tot.after_restart_repeats,
             "faults_fired": {"restart": tot.restarts, "noise-draws-between-prf-calls": tot.noise, "interleaving-across-instances": tot.cross_instance_repeats},
             "unrelated_output_pairs_compared": tot.distinct_pairs,
+            "stream_reuse_tests(shifted-copy detector on successive draws, PRF pairs and single values)": tot.stream_reuse_tests,
             "bitwise_agreement_of_unrelated_outputs": agreement_note,
             "prng": counters,
             "histories_per_hour": if wall > 0.0 { (results.len() as f64 / wall * 3600.0) as u64 } else { 0 },
